@@ -726,6 +726,36 @@ fn layout_events(case: &str, bytes: &[u8], lay: &Layout, lens: &BTreeMap<&str, u
     brk
 }
 
+/// Second-write identity chunk by chunk: payload token of every chunk of the first and of the second
+/// write, keyed by (tag, occurrence).  "-" = the chunk does not exist in that file.
+fn rewrite_chunk_events(case: &str, b1: &[u8], b2: &[u8], lay: &Layout, evs: &mut Vec<Value>) {
+    let index = |bytes: &[u8]| {
+        let mut cs = Vec::new();
+        let mut brk = None;
+        walk(bytes, 0, bytes.len(), 1, "", lay, &mut cs, &mut brk);
+        let mut seen: HashMap<String, usize> = HashMap::new();
+        let mut m: Vec<(String, String)> = Vec::new();
+        for c in cs.iter().filter(|c| c.depth == 1) {
+            let n = seen.entry(c.tag.clone()).or_insert(0);
+            *n += 1;
+            let key = if *n == 1 { c.tag.clone() } else { format!("{}#{}", c.tag, n) };
+            m.push((key, format!("{}:{}", c.size, tok(payload(bytes, c)))));
+        }
+        m
+    };
+    let (m1, m2) = (index(b1), index(b2));
+    let mut keys: Vec<String> = m1.iter().map(|x| x.0.clone()).collect();
+    for (k, _) in &m2 {
+        if !keys.contains(k) {
+            keys.push(k.clone());
+        }
+    }
+    let get = |m: &Vec<(String, String)>, k: &str| m.iter().find(|x| x.0 == k).map(|x| x.1.clone()).unwrap_or_else(|| "-".into());
+    for k in keys {
+        evs.push(json!({"ev":"RwChunk","case":case,"tag":k,"a":get(&m1, &k),"b":get(&m2, &k)}));
+    }
+}
+
 #[derive(Default)]
 struct Wants {
     count_chunk: HashMap<&'static str, String>,
@@ -810,6 +840,9 @@ fn run_root(case: &str, c: &Value, lay: &Layout, seed: u64) -> Vec<Value> {
             sec_events(case, "parse", &tin, &root_tokens(p), &mut body);
             let (rres, b2) = write_root(p, v);
             body.push(json!({"ev":"Rewrite","case":case,"res":rres,"len":b2.len(),"tok":tok(&b2)}));
+            if rres == "ok" {
+                rewrite_chunk_events(case, &bytes, &b2, lay, &mut body);
+            }
         }
         // second public parser
         let (ares, aparsed) = outcome(guarded(|| parse_wmo(&mut Cursor::new(&bytes))));
